@@ -607,9 +607,71 @@ func edgeOnlyWayIn(b, s, ab *ssa.BasicBlock) bool {
 
 // ---- queries -------------------------------------------------------------------------------------
 
+// suffixOf: b is a itself or a[i:] / b'[i:] of such a value on every way it is defined (a slice
+// variable that only ever drops leading elements): len(b) ≤ len(a).
+func suffixOf(b, a ssa.Value, seen map[ssa.Value]bool, d int) bool {
+	if b == a || equivValue(b, a, 0) {
+		return true
+	}
+	if seen[b] {
+		return true // around the loop: co-inductive
+	}
+	if d > 8 {
+		return false
+	}
+	seen[b] = true
+	switch x := b.(type) {
+	case *ssa.Phi:
+		for _, e := range x.Edges {
+			if !suffixOf(e, a, seen, d+1) {
+				return false
+			}
+		}
+		return true
+	case *ssa.Slice:
+		if x.High == nil && x.Max == nil {
+			return suffixOf(x.X, a, seen, d+1)
+		}
+	}
+	return false
+}
+
+var lenPhiBusy = map[*ssa.Phi]bool{}
+
+// phiLenAtLeast: every value flowing into the slice variable has at least k elements: an edge
+// y[j:] is computed where len(y) ≥ j+k is known (y may be the variable itself: the fact is about the
+// iteration that computes the edge).
+func phiLenAtLeast(ph *ssa.Phi, k int64) bool {
+	if lenPhiBusy[ph] {
+		return false
+	}
+	lenPhiBusy[ph] = true
+	defer delete(lenPhiBusy, ph)
+	for _, e := range ph.Edges {
+		sl, ok := e.(*ssa.Slice)
+		if !ok || sl.High != nil || sl.Max != nil {
+			return false
+		}
+		j := int64(0)
+		if sl.Low != nil {
+			var isC bool
+			if j, isC = constInt(sl.Low); !isC || j < 0 {
+				return false
+			}
+		}
+		if !FactsAt(sl).lenAtLeast(sl.X, j+k) {
+			return false
+		}
+	}
+	return len(ph.Edges) > 0
+}
+
 // lenAtLeast: facts imply len(x) >= k.
 func (f *Facts) lenAtLeast(x ssa.Value, k int64) bool {
 	if k <= 0 {
+		return true
+	}
+	if ph, isPhi := x.(*ssa.Phi); isPhi && phiLenAtLeast(ph, k) {
 		return true
 	}
 	want := Term{LenPath: accessPath(x), LenVal: x}
@@ -798,6 +860,11 @@ func (f *Facts) nonNegD(v ssa.Value, d int, seen map[ssa.Value]bool) bool {
 				if tx.isLen() && f.lenAtLeast(tx.LenVal, k-tx.Off) {
 					return true
 				}
+			}
+			// len(a) - len(b) where b is always a suffix of a
+			ta, tb := termOf(x.X), termOf(x.Y)
+			if ta.isLen() && tb.isLen() && ta.Off == 0 && tb.Off == 0 && suffixOf(tb.LenVal, ta.LenVal, map[ssa.Value]bool{}, 0) {
+				return true
 			}
 		}
 	case *ssa.Extract:
